@@ -390,6 +390,49 @@ class H4BeaconB(H4Beacon):
         return [("g12", lambda: (a[0][1](), a[1][1]())), ("shb", lambda: self.r.gn_data_indicate(self.shb))]
 
 
+class H6Mixed(H3EgoPv):
+    """rx(first beacon of X) || originate GBC || rx(GBC of S to forward and deliver) || refresh ego position: nothing fails,
+    one originated and one forwarded frame, one delivery, X a neighbour afterwards, originated SO PV a whole ego PV"""
+
+    def extra_setup(self):
+        H3EgoPv.extra_setup(self)
+        # the refreshed position stays inside the packet's area (a move out of it would legitimately change what is delivered)
+        self.t1 = {"lat": 41.0001, "lon": 2.0001, "speed": 11.0, "track": 111.0, "time": S.iso(self.s.now + 1)}
+        self.pvs.add((int(self.t1["lat"] * 1e7), int(self.t1["lon"] * 1e7), 1100, 1110, tst(self.s.now + 1)))
+        self.know(MID_S, LAT + 5000)
+        self.p = gbc_packet(self.s.now, sn=7)
+        self.bx = G.build("beacon", so_addr=G.addr_encode(0, 5, b"\0\0\0\0\0\x55"), so=dict(tst=tst(self.s.now), lat=LAT + 900, lon=LON, pai=1),
+                          rhl=1, mhl=1)
+
+    def actors(self):
+        return [("bx", lambda: self.r.gn_data_indicate(self.bx)), ("gbc1", lambda: self.r.gn_data_request(greq("gbc"))),
+                ("rxs", lambda: self.r.gn_data_indicate(self.p)), ("ref1", lambda: self.r.refresh_ego_position_vector(self.t1))]
+
+    def check(self, s):
+        bad = []
+        fr = self.frames()
+        own = [p for p in fr if p["ext"]["so"]["addr_raw"] == ADDR_R]
+        fwd = [p for p in fr if p["ext"]["so"]["addr_raw"] == ADDR_S]
+        if len(own) != 1 or len(fwd) != 1 or len(fr) != 2:
+            bad.append(dict(kind="frame_count", own=len(own), forwarded=len(fwd), total=len(fr)))
+        for p in own:
+            so = p["ext"]["so"]
+            if (so["lat"], so["lon"], so["s"], so["h"], so["tst"]) not in self.pvs:
+                bad.append(dict(kind="torn_position_vector", so=[so["lat"], so["lon"], so["s"], so["h"], so["tst"]]))
+        for p in fwd:
+            if p["payload"] != b"\x07\xd1\x00\x00cbf" or p["ext"]["sn"] != 7 or p["basic"]["rhl"] != 2:
+                bad.append(dict(kind="forwarded_frame_altered", sn=p["ext"]["sn"], rhl=p["basic"]["rhl"]))
+        if len(self.inds) != 1:
+            bad.append(dict(kind="delivery_count", got=len(self.inds), expected=1))
+        x = self.r.location_table.get_entry(GNAddress(m=M.GN_UNICAST, st=ST.PASSENGER_CAR, mid=MID(b"\0\0\0\0\0\x55")))
+        if x is None or not x.is_neighbour:
+            bad.append(dict(kind="beacon_sender_not_a_neighbour"))
+        fin = self.r.ego_position_vector
+        if (fin.latitude, fin.longitude, fin.s, fin.h, fin.tst.msec) not in self.pvs:
+            bad.append(dict(kind="torn_ego_pv"))
+        return bad
+
+
 class H5Small(H5Dpd):
     def actors(self):
         return H5Dpd.actors(self)[:2]
@@ -403,7 +446,7 @@ class H5Small(H5Dpd):
         return bad
 
 
-HARNESSES = {"H4b": H4Beacon, "H4c": H4BeaconB, "H4p": H4Prebuffered, "H4t": H4Timeout, "H1s": H1Small, "H3s": H3Small, "H4s": H4Small, "H5s": H5Small, "H1": H1Sequence, "H2": H2Cbf, "H2b": H2bSeam, "H3": H3EgoPv, "H4": H4LocationService, "H5": H5Dpd}
+HARNESSES = {"H6": H6Mixed, "H4b": H4Beacon, "H4c": H4BeaconB, "H4p": H4Prebuffered, "H4t": H4Timeout, "H1s": H1Small, "H3s": H3Small, "H4s": H4Small, "H5s": H5Small, "H1": H1Sequence, "H2": H2Cbf, "H2b": H2bSeam, "H3": H3EgoPv, "H4": H4LocationService, "H5": H5Dpd}
 
 
 def make(name):
